@@ -215,13 +215,13 @@ package lexer
 //@   requires lastnl(s) >= 0
 //@   ensures rcount(s[lastnl(s):]) == 1 + rcount(s[lastnl(s)+1:])
 
-//@ func (*Position).Advance [C04 C07 C06]
+//@ func (*Position).Advance [C04 C07 C06 C03]
 //@   frame-tags C09
 //@   ghost in string
 //@   modifies *p
 //@   ensures p.Offset == old(p.Offset) + len(span) && p.Filename == old(p.Filename)
 //@   ensures @posOK old(posOK(in, *p)) && old(p.Offset) + len(span) <= len(in) && span == in[old(p.Offset):old(p.Offset)+len(span)]
-//@        && cutok(in[lineStart(in, old(p.Offset)):old(p.Offset)], span) ==> posOK(in, *p)  [C04 C06 C11]
+//@        && cutok(in[lineStart(in, old(p.Offset)):old(p.Offset)], span) ==> posOK(in, *p)  [C04 C06 C11 C03]
 //@   use subSplit(in, 0, p.Offset, p.Offset + len(span)) at entry
 //@   use nlcCat(in[:p.Offset], span) at entry
 //@   use nlFacts(span) at entry
@@ -393,7 +393,7 @@ package lexer
 
 // The reader entry point lexes exactly the bytes read, under the caller's filename (C15: Lex, LexString
 // and LexBytes agree; C04: offsets refer to the caller's input). What io.Copy delivers is trusted.
-//@ func (*StatefulDefinition).Lex [C15 C04]
+//@ func (*StatefulDefinition).Lex [C15 C04 C06]
 //@   frame-tags C09
 //@   let content string = result0 after call (*strings.Builder).String#1
 //@   before call (*lexer.StatefulDefinition).LexString#1: assert arg1 == filename && arg2 == content
